@@ -172,20 +172,14 @@ impl quote::ToTokens for ParamsGenerator<'_> {
 
         if let Some(impl_t) = &self.impl_t {
             punctuator.push_fn(|stream| {
-                push_tokens!(
-                    stream,
-                    impl_t,
-                    syn::token::Colon::default(),
-                    syn::Ident::new("Sync", proc_macro2::Span::call_site())
-                );
+                // absolute paths: the invoking scope may define its own `Sync` / `Send`
+                let sync: syn::Path = syn::parse_quote! { ::core::marker::Sync };
+                push_tokens!(stream, impl_t, syn::token::Colon::default(), sync);
 
                 if self.takes_self_by_value.0 {
-                    push_tokens!(
-                        stream,
-                        syn::token::Plus::default(),
-                        // In case T is not a reference, it has to be Send
-                        syn::Ident::new("Send", proc_macro2::Span::call_site())
-                    );
+                    // In case T is not a reference, it has to be Send
+                    let send: syn::Path = syn::parse_quote! { ::core::marker::Send };
+                    push_tokens!(stream, syn::token::Plus::default(), send);
                 }
 
                 // if self.use_associated_future.0 {
